@@ -319,7 +319,7 @@ func (s *supOFO) childTerminated(name gen.Atom, pid gen.PID, reason error) supAc
 	action.reason = ErrSupervisorRestartsExceeded
 	s.wait = wait
 	s.shutdown = true
-	s.shutdownReason = reason
+	s.shutdownReason = ErrSupervisorRestartsExceeded
 
 	return action
 }
